@@ -688,7 +688,9 @@ func (env *Env) w2i(t Term, bits int) Term {
 	if bits == 64 {
 		pow = "18446744073709551616"
 	}
-	env.st.Assume(and(app("<=", "0", r.S), app("<", r.S, pow), eq(app(fmt.Sprintf("i2w%d", bits), r.S), t.S)))
+	if len(env.bound) == 0 { // the instance would mention a bound variable otherwise
+		env.st.Assume(and(app("<=", "0", r.S), app("<", r.S, pow), eq(app(fmt.Sprintf("i2w%d", bits), r.S), t.S)))
+	}
 	return r
 }
 
@@ -701,7 +703,9 @@ func (env *Env) i2w(t Term, bits int) Term {
 		pow = "18446744073709551616"
 	}
 	r := Term{app(fn, t.S), sort}
-	env.st.Assume(implies(and(app("<=", "0", t.S), app("<", t.S, pow)), eq(app(fmt.Sprintf("w2i%d", bits), r.S), t.S)))
+	if len(env.bound) == 0 {
+		env.st.Assume(implies(and(app("<=", "0", t.S), app("<", t.S, pow)), eq(app(fmt.Sprintf("w2i%d", bits), r.S), t.S)))
+	}
 	return r
 }
 
